@@ -72,6 +72,11 @@ type vc08Op struct {
 	Xs      []uint32 `json:"xs"`
 	Is      []uint32 `json:"is"`
 	Ws      []uint32 `json:"ws"`
+	// between: the second (inner) transaction, added completely between the read and the write transaction of the first
+	I2   int     `json:"i2,omitempty"`
+	Pi2  []int   `json:"pi2,omitempty"`
+	Clk2 uint32  `json:"clk2,omitempty"`
+	Tx2  *vc08Tx `json:"tx2,omitempty"`
 	adds    []*vc08Op
 	fullObs bool
 }
@@ -192,6 +197,8 @@ type vc08Store struct {
 	otherDone  chan struct{} // closed when the racing call has returned
 	// run once, right before the next write transaction that is not an Add of the harness (the repair's checkPage)
 	beforeRepairWrite func()
+	// the next write transaction that is not an Add of the harness (the repair's checkPage) does not commit
+	failRepairWrite bool
 }
 
 func (v *vc08Store) Write(ctx context.Context, fn func(stoabs.WriteTx) error, opts ...stoabs.TxOption) error {
@@ -200,6 +207,15 @@ func (v *vc08Store) Write(ctx context.Context, fn func(stoabs.WriteTx) error, op
 		if hook := v.beforeRepairWrite; hook != nil {
 			v.beforeRepairWrite = nil
 			hook()
+		}
+		if v.failRepairWrite {
+			v.failRepairWrite = false
+			return v.KVStore.Write(ctx, func(tx stoabs.WriteTx) error {
+				if err := fn(tx); err != nil {
+					return err
+				}
+				return errVc08Injected
+			}, opts...)
 		}
 		return v.KVStore.Write(ctx, fn, opts...)
 	}
@@ -543,6 +559,44 @@ func (r *vc08Run) observe(op *vc08Op) (string, string) {
 			maxClock = k.clock
 		}
 	}
+	// the stored set is a valid DAG — what the property quantifies over and what every Add must preserve (GInv in the
+	// model): at most one root, every prev stored, clock = 1 + the highest clock among the prevs
+	{
+		inS := make(map[hash.SHA256Hash]*vc08Known, len(S))
+		for _, k := range S {
+			inS[k.tx.Ref()] = k
+		}
+		roots := 0
+		for _, k := range S {
+			prevs := k.tx.Previous()
+			if len(prevs) == 0 {
+				roots++
+				if k.clock != 0 {
+					fail(fmt.Sprintf("FAIL:stored-set-not-a-valid-dag:root stored with clock %d", k.clock))
+				}
+				continue
+			}
+			var hi uint32
+			all := true
+			for _, p := range prevs {
+				pk, ok := inS[p]
+				if !ok {
+					all = false
+					fail("FAIL:stored-set-not-a-valid-dag:a stored transaction refers to a prev that is not stored")
+					break
+				}
+				if pk.clock+1 > hi {
+					hi = pk.clock + 1
+				}
+			}
+			if all && k.clock != hi {
+				fail(fmt.Sprintf("FAIL:stored-set-not-a-valid-dag:clock %d stored, prevs imply %d", k.clock, hi))
+			}
+		}
+		if roots > 1 {
+			fail(fmt.Sprintf("FAIL:stored-set-not-a-valid-dag:%d root transactions stored", roots))
+		}
+	}
 	var count uint64
 	var diskLc uint32
 	_ = r.db.Read(ctx, func(tx stoabs.ReadTx) error {
@@ -752,8 +806,11 @@ func (r *vc08Run) register(ops []*vc08Op, from int) {
 		}
 	}
 	for i := from + 1; i < len(ops) && ops[i].Op != "new"; i++ {
-		if ops[i].Op == "add" || ops[i].Op == "dupadd" || ops[i].Op == "checkRace" {
+		if ops[i].Op == "add" || ops[i].Op == "dupadd" || ops[i].Op == "checkRace" || ops[i].Op == "between" {
 			reg(ops[i])
+		}
+		if ops[i].Op == "between" {
+			reg(ops[i].inner())
 		}
 		for _, a := range ops[i].adds {
 			reg(a)
@@ -831,6 +888,8 @@ func (r *vc08Run) exec(op *vc08Op) {
 			tag = r.doDupAdd(op)
 			r.fillTx(op)
 			r.stats["add:"+tag]++
+		case "between":
+			tag = r.doBetween(op)
 		case "batch":
 			n := len(op.adds)
 			results := make([]string, n)
@@ -989,6 +1048,12 @@ func (r *vc08Run) exec(op *vc08Op) {
 		case "check":
 			r.st.xorTreeRepair.checkPage()
 			tag = fmt.Sprintf("check page=%d", r.st.xorTreeRepair.currentPage)
+		case "checkFail":
+			// the repair's own write transaction fails (error after the write function: nothing is committed)
+			r.db.failRepairWrite = true
+			r.st.xorTreeRepair.checkPage()
+			r.db.failRepairWrite = false
+			tag = fmt.Sprintf("checkFail page=%d", r.st.xorTreeRepair.currentPage)
 		}
 	}()
 	if op.Quiet {
@@ -1538,7 +1603,7 @@ func TestVerifC08(t *testing.T) {
 			if strings.HasPrefix(op.Op, "t") {
 				continue
 			}
-			op.Tx = nil
+			op.Tx, op.Tx2 = nil, nil
 			ops = append(ops, op)
 		}
 		if len(ops) > 0 && ops[0].Op != "new" {
@@ -1618,6 +1683,16 @@ func TestVerifC08(t *testing.T) {
 			n = 4150
 		}
 		g.history(fmt.Sprintf("large-%d", i), n, 1)
+	}
+	nb := 6
+	if thorough {
+		nb = 40
+	}
+	for i := 0; i < nb; i++ { // the repair's write transaction fails: memory repaired, store untouched, corruption back after restart
+		g.repairFault(fmt.Sprintf("repairfault-%d", i))
+	}
+	for i := 0; i < nb; i++ { // forced schedules: a whole Add between the read and the write transaction of another Add
+		g.between(fmt.Sprintf("between-%d", i))
 	}
 	g.addRaw(40, envInt("VERIF_C08_RAW", 60))
 	r.run(g.ops)
